@@ -299,6 +299,14 @@ def canonical_branches(tree: ast.AST) -> ast.AST:
     class _Canon(ast.NodeTransformer):
         def visit_If(self, node: ast.If):
             self.generic_visit(node)
+            # `if A: if B: body` (no else anywhere) is `if A and B: body`
+            while not node.orelse and len(node.body) == 1 and isinstance(node.body[0], ast.If) and not node.body[0].orelse \
+                    and not any(isinstance(x, ast.NamedExpr) for x in ast.walk(node.test)):
+                inner = node.body[0]
+                a = node.test.values if isinstance(node.test, ast.BoolOp) and isinstance(node.test.op, ast.And) else [node.test]
+                b = inner.test.values if isinstance(inner.test, ast.BoolOp) and isinstance(inner.test.op, ast.And) else [inner.test]
+                node.test = ast.copy_location(ast.BoolOp(op=ast.And(), values=list(a) + list(b)), node.test)
+                node.body = inner.body
             if node.orelse and isinstance(node.test, ast.UnaryOp) and isinstance(node.test.op, ast.Not):
                 node.test, node.body, node.orelse = node.test.operand, node.orelse, node.body
             return node
